@@ -94,7 +94,7 @@ func min(a, b int) int {
 
 func runPlan(c *ctx) {
 	c.w.Rule = "a case is non-trivial when the real planner returns a non-empty plan; distinct by the plan skeleton"
-	n := 5000
+	n := 4000
 	if c.thorough {
 		n = 20000
 	}
@@ -547,7 +547,7 @@ func (c *ctx) engineCase(a, b Schema, desc string, o engineOpts) {
 
 func runEngine(c *ctx) {
 	c.w.Rule = "a case is non-trivial when the real differ reports a non-empty change list between the inspected current database and the desired schema; distinct by that list"
-	n := 2500
+	n := 1800
 	if c.thorough {
 		n = 6000
 	}
@@ -573,7 +573,7 @@ func runEngine(c *ctx) {
 
 func runOracle(c *ctx) {
 	c.w.Rule = "a case is non-trivial when the real differ reports a non-empty change list between the inspected current database and the desired schema; distinct by that list"
-	n := 3000
+	n := 2000
 	if c.thorough {
 		n = 40000
 	}
